@@ -12,13 +12,11 @@ func init() { register("C11", checkC11) }
 func pathIndex(p CPath) map[ssa.Instruction]int {
 	m := map[ssa.Instruction]int{}
 	k := 0
-	for _, b := range p.Blocks {
-		for _, in := range b.Instrs {
-			if _, seen := m[in]; !seen {
-				m[in] = k
-			}
-			k++
+	for _, in := range p.Instrs() {
+		if _, seen := m[in]; !seen {
+			m[in] = k
 		}
+		k++
 	}
 	return m
 }
@@ -79,19 +77,13 @@ func decodedLoad(v ssa.Value, sel string, idx map[ssa.Instruction]int, decodeAt 
 // holds on at least one leaf and on no leaf is a post-decode load of the same
 // layer; the arm taken is the one where the two are equal.
 func passedEquality(p CPath, idx map[ssa.Instruction]int, decodeAt int, layerSel string, other func(leaf ssa.Value) bool) (bool, *ssa.If) {
-	for k, b := range p.Blocks {
-		if k+1 >= len(p.Blocks) {
-			break
-		}
-		ifi, ok := b.Instrs[len(b.Instrs)-1].(*ssa.If)
-		if !ok {
-			continue
-		}
+	for _, tk := range p.Ifs() {
+		ifi := tk.If
 		op, x, y, neg, isBin := condOf(ifi.Cond)
 		if !isBin || (op != token.EQL && op != token.NEQ) {
 			continue
 		}
-		arm := p.Blocks[k+1] == b.Succs[0]
+		arm := tk.Arm
 		if neg {
 			arm = !arm
 		}
@@ -159,7 +151,7 @@ func checkC11(c *Ctx, r *Report) {
 					return true
 				}
 				// a copy of the request operation taken from the message layer before the decode
-				if strings.Contains(a.SelString(), "messageLayer") {
+				if strings.Contains(a.SelString(), fMsg) {
 					at, ok := idx[ld]
 					return ok && at < decodeAt
 				}
@@ -192,7 +184,7 @@ func checkC11(c *Ctx, r *Report) {
 			label := exitLabel(p)
 			for _, fld := range []string{"Function", "Command"} {
 				r.Rule("reply-matches-request", "a reply's completion code is used only if the decoded message's NetFn and command were compared equal with the request's", 4)
-				ok, _ := passedEquality(p, idx, decodeAt, "messageLayer."+fld, reqDerived(idx, decodeAt))
+				ok, _ := passedEquality(p, idx, decodeAt, fMsg+"."+fld, reqDerived(idx, decodeAt))
 				r.Check(ok, fname+"|"+fld+"|path "+label, s.Send.Pos(), "decoded "+fld+" compared with the request's on this path", "the reply's "+fld+" is never compared with the request's before its completion code is used: a reply to another command is taken as this command's response")
 			}
 		})
@@ -204,7 +196,7 @@ func checkC11(c *Ctx, r *Report) {
 
 	// one write followed by one read per attempt
 	r.Rule("one-write-one-read", "transport.Send performs exactly one socket write followed by exactly one socket read on its success path", 1)
-	if send := c.Method("internal/pkg/transport", "transport", "Send"); send == nil {
+	if send := c.transportSend(); send == nil {
 		r.Lost("transport.Send")
 	} else {
 		r.Fn(c.FnName(send))
